@@ -110,6 +110,17 @@ func crashCases(quick bool) []crashCase {
 			}
 		}
 	}
+	if only := os.Getenv("C13_HIST"); only != "" { // debugging aid: restrict the histories (the run reports itself as capped)
+		var keep []string
+		for _, h := range hs {
+			for _, o := range strings.Split(only, ",") {
+				if h == o {
+					keep = append(keep, h)
+				}
+			}
+		}
+		hs = keep
+	}
 	var out []crashCase
 	for _, h := range hs {
 		for _, trie := range []bool{false, true} {
@@ -1254,6 +1265,9 @@ func runCrash(r *vk.Run) (evaluated int) {
 			}
 			fmt.Println("    outcomes:", res.Outcomes)
 		}
+	}
+	if os.Getenv("C13_HIST") != "" {
+		r.Capped("crash: histories restricted by C13_HIST=" + os.Getenv("C13_HIST"))
 	}
 	if done < len(cases) || capped > 0 {
 		r.Capped(fmt.Sprintf("crash: %d of %d (history, mode, model) cases returned, %d crash states not evaluated before the deadline", done, len(cases), capped))
